@@ -330,4 +330,195 @@ theorem C10_title_message_width (v : Version) (n : Nat) (hn : getMaxLineLength v
           exact sliceTo_length _ _ _ (by omega) (by omega)
     · subst hl; simp
 
+/-! ## content: the data words survive wrapping (Spec.Text.words of the continuation lines) -/
+open _root_.MontePyVerif.Spec.Text (words wordsAux)
+
+theorem wordsAux_snoc_blank : ∀ (a cur : Str), wordsAux (a ++ [' ']) cur = wordsAux a cur
+  | [], cur => by simp [wordsAux]
+  | c :: a, cur => by
+    simp only [List.cons_append, wordsAux]
+    split
+    · split <;> simp [wordsAux_snoc_blank a]
+    · exact wordsAux_snoc_blank a _
+
+theorem wordsAux_append_blank : ∀ (a b cur : Str),
+    wordsAux (a ++ ' ' :: b) cur = wordsAux (a ++ [' ']) cur ++ wordsAux b []
+  | [], b, cur => by
+    simp only [List.nil_append, wordsAux]
+    simp
+    split <;> simp
+  | c :: a, b, cur => by
+    simp only [List.cons_append, wordsAux]
+    split
+    · split <;> simp [wordsAux_append_blank a b]
+    · exact wordsAux_append_blank a b _
+
+/-- the break between `a` and `b` is a word boundary -/
+def Sep (a b : Str) : Prop := a = [] ∨ b = [] ∨ (∃ a', a = a' ++ [' ']) ∨ (∃ b', b = ' ' :: b')
+
+theorem words_blank_cons (b : Str) : words (' ' :: b) = words b := by
+  simp [words, wordsAux]
+
+/-- reading two pieces separately gives the words of the whole when the break is a word boundary -/
+theorem words_append_of_sep (a b : Str) (h : Sep a b) : words (a ++ b) = words a ++ words b := by
+  rcases h with h | h | ⟨a', h⟩ | ⟨b', h⟩
+  · subst h; simp [words, wordsAux]
+  · subst h; simp [words, wordsAux]
+  · subst h
+    simp only [words, List.append_assoc, List.singleton_append]
+    rw [wordsAux_append_blank]
+  · subst h
+    rw [words_blank_cons]
+    simp only [words]
+    rw [wordsAux_append_blank, wordsAux_snoc_blank]
+
+theorem words_blanks_append (n : Nat) (b : Str) : words (blanks n ++ b) = words b := by
+  induction n with
+  | zero => simp [blanks]
+  | succ k ih =>
+    have : blanks (k + 1) ++ b = ' ' :: (blanks k ++ b) := by simp [blanks, List.replicate_succ]
+    rw [this, words_blank_cons, ih]
+
+/-- a blank chunk -/
+def WsC (c : Str) : Prop := ∀ x ∈ c, x = ' '
+
+/-- chunk lists as `_split` produces them from munged text: no empty chunk, and of two neighbours one is blanks -/
+def Chain : List Str → Prop
+  | [] => True
+  | [c] => c ≠ []
+  | a :: b :: rest => a ≠ [] ∧ (WsC a ∨ WsC b) ∧ Chain (b :: rest)
+
+theorem Chain.head_ne {c : Str} {rest : List Str} (h : Chain (c :: rest)) : c ≠ [] := by
+  cases rest with
+  | nil => exact h
+  | cons b r => exact h.1
+
+theorem Chain.tail {c : Str} {rest : List Str} (h : Chain (c :: rest)) : Chain rest := by
+  cases rest with
+  | nil => trivial
+  | cons b r => exact h.2.2
+
+theorem Chain.drop_left : ∀ (t r : List Str), Chain (t ++ r) → Chain r
+  | [], _, h => h
+  | _ :: t, r, h => Chain.drop_left t r (Chain.tail h)
+
+theorem flatten_ne_nil_of_chain {c : Str} {rest : List Str} (h : Chain (c :: rest)) : (c :: rest).flatten ≠ [] := by
+  have := Chain.head_ne h
+  simp only [List.flatten_cons, ne_eq, List.append_eq_nil_iff, not_and]
+  intro h1; exact absurd h1 this
+
+theorem sep_prepend (a x r : Str) (hx : x ≠ []) (h : Sep x r) : Sep (a ++ x) r := by
+  rcases h with h | h | ⟨x', h⟩ | h
+  · exact absurd h hx
+  · exact Or.inr (Or.inl h)
+  · exact Or.inr (Or.inr (Or.inl ⟨a ++ x', by rw [h, List.append_assoc]⟩))
+  · exact Or.inr (Or.inr (Or.inr h))
+
+theorem wsC_ends : ∀ {a : Str}, a ≠ [] → WsC a → ∃ a', a = a' ++ [' ']
+  | [], h, _ => absurd rfl h
+  | [x], _, hw => ⟨[], by simp [hw x List.mem_cons_self]⟩
+  | x :: y :: r, _, hw => by
+    obtain ⟨a', h⟩ := wsC_ends (a := y :: r) (by simp) (fun z hz => hw z (List.mem_cons_of_mem _ hz))
+    exact ⟨x :: a', by rw [h]; rfl⟩
+
+/-- every place where a chain of chunks can be cut is a word boundary -/
+theorem sep_of_chain : ∀ (t r : List Str), Chain (t ++ r) → Sep t.flatten r.flatten
+  | [], _, _ => Or.inl rfl
+  | [a], [], _ => Or.inr (Or.inl rfl)
+  | [a], b :: r, h => by
+    have h' : Chain (a :: b :: r) := h
+    rcases h'.2.1 with hw | hw
+    · obtain ⟨a', ha⟩ := wsC_ends h'.1 hw
+      exact Or.inr (Or.inr (Or.inl ⟨a', by simpa using ha⟩))
+    · have hb : b ≠ [] := Chain.head_ne h'.2.2
+      cases b with
+      | nil => exact absurd rfl hb
+      | cons x b' =>
+        have : x = ' ' := hw x List.mem_cons_self
+        subst this
+        exact Or.inr (Or.inr (Or.inr ⟨b' ++ r.flatten, by simp⟩))
+  | a :: a2 :: t, r, h => by
+    have h' : Chain (a :: (a2 :: t ++ r)) := h
+    have ih := sep_of_chain (a2 :: t) r (Chain.tail h')
+    have hne : (a2 :: t).flatten ≠ [] := by
+      have : Chain (a2 :: (t ++ r)) := Chain.tail h'
+      have := Chain.head_ne this
+      simp only [List.flatten_cons, ne_eq, List.append_eq_nil_iff, not_and]
+      intro h1; exact absurd h1 this
+    simpa using sep_prepend a _ _ hne ih
+
+/-- without an over-long chunk `_handle_long_word` is never entered -/
+theorem oneLine_eq_fillLine (width : Nat) (chunks : List Str) (hb : ∀ c ∈ chunks, c.length ≤ width) :
+    oneLine width chunks = fillLine width 0 chunks := by
+  unfold oneLine
+  have happ := fillLine_append width chunks 0
+  generalize fillLine width 0 chunks = r at happ
+  obtain ⟨r1, r2⟩ := r
+  simp only at happ ⊢
+  cases r2 with
+  | nil => rfl
+  | cons c rest =>
+    have : c ∈ chunks := by rw [← happ]; simp
+    have := hb c this
+    simp only [finishLine]
+    rw [if_neg (by omega)]
+
+/-- C10_words, chunk level: when no chunk is longer than what a continuation line can hold and the indents are
+    blanks, the words MCNP reads from the wrapped lines are the words of the unwrapped text — for every chunk chain,
+    by induction over the greedy fill. -/
+theorem wrapChunks_words (W ni ns : Nat) (first : Bool) (chunks : List Str)
+    (hc : Chain chunks) (hb : ∀ c ∈ chunks, c.length ≤ W - ni ∧ c.length ≤ W - ns) :
+    ((wrapChunks W (blanks ni) (blanks ns) first chunks).map words).flatten = words chunks.flatten := by
+  fun_induction wrapChunks W (blanks ni) (blanks ns) first chunks with
+  | case1 => simp [words, wordsAux]
+  | case2 first c rest indent r hempty ih =>
+    have hwid : ∀ x ∈ c :: rest, x.length ≤ W - indent.length := by
+      intro x hx
+      simp only [indent]
+      split <;> simp only [length_blanks]
+      · exact (hb x hx).1
+      · exact (hb x hx).2
+    have heq := oneLine_eq_fillLine _ _ hwid
+    have happ := fillLine_append (W - indent.length) (c :: rest) 0
+    have h1 : r.1 = [] := by simpa using hempty
+    simp only [r] at h1 ih ⊢
+    rw [← heq] at happ
+    rw [h1] at happ
+    simp only [List.nil_append] at happ
+    rw [happ] at ih ⊢
+    exact ih hc hb
+  | case3 first c rest indent r hne ih =>
+    have hwid : ∀ x ∈ c :: rest, x.length ≤ W - indent.length := by
+      intro x hx
+      simp only [indent]
+      split <;> simp only [length_blanks]
+      · exact (hb x hx).1
+      · exact (hb x hx).2
+    have heq := oneLine_eq_fillLine _ _ hwid
+    have happ := fillLine_append (W - indent.length) (c :: rest) 0
+    rw [← heq] at happ
+    simp only [r] at ih ⊢
+    have hc2 : Chain (oneLine (W - indent.length) (c :: rest)).2 := by
+      apply Chain.drop_left (oneLine (W - indent.length) (c :: rest)).1
+      rw [happ]; exact hc
+    have hb2 : ∀ x ∈ (oneLine (W - indent.length) (c :: rest)).2, x.length ≤ W - ni ∧ x.length ≤ W - ns := by
+      intro x hx
+      apply hb
+      rw [← happ]
+      exact List.mem_append_right _ hx
+    simp only [List.map_cons, List.flatten_cons]
+    rw [ih hc2 hb2]
+    have hind : ∃ k, indent = blanks k := by
+      simp only [indent]; split
+      · exact ⟨ni, rfl⟩
+      · exact ⟨ns, rfl⟩
+    obtain ⟨k, hk⟩ := hind
+    have hw1 : ∀ X, words (indent ++ X) = words X := by
+      intro X; rw [hk, words_blanks_append]
+    rw [hw1]
+    rw [← words_append_of_sep]
+    · rw [← List.flatten_append, happ]; rfl
+    · apply sep_of_chain
+      rw [happ]; exact hc
+
 end MontePyVerif.C10
